@@ -47,7 +47,7 @@ def gen_cases(ctx):
     cases.append("G5 Q G5 S506 G520")
     ctx.count("generator", 3)
     # ---- every phase, four kinds of validator history
-    for p in range(511):
+    for p in list(range(511)) * (3 if thorough else 1):
         cases.append(f"S{p} T60")
         ctx.count("phase-new")
         cases.append(f"V{''.join(str(r.below(2)) for _ in range(r.range(1, 40)))} R S{p} T60")
@@ -68,7 +68,7 @@ def gen_cases(ctx):
             ctx.count("single-error")
     # ---- random error patterns by density (errors per 128 bits), after a clean lock
     for d in range(0, 31):
-        for _ in range(40 if thorough else 6):
+        for _ in range(80 if thorough else 6):
             n = r.range(300, 900)
             fl = [i for i in range(n) if r.below(128) < d]
             cases.append(f"S{r.below(511)} T30 {flips_str(n, fl)} T60")
@@ -103,7 +103,7 @@ def gen_cases(ctx):
         cases.append(f"S{r.below(511)} T{r.range(1, 60)} R T60 R R T30")
     ctx.count("special", 14)
     # sync_count >= 10 on another phase, then a phase jump (the history for which c18_lock_within_27 does not hold)
-    for _ in range(200 if thorough else 40):
+    for _ in range(1500 if thorough else 40):
         k = r.range(19, 26)            # 9 bits fill the register, k - 9 >= 10 matches
         cases.append(f"S{r.below(511)} T{k} S{r.range(1, 510)} T150")
         ctx.count("phase-jump-during-acquisition")
